@@ -890,7 +890,32 @@ func runC11EndToEnd(c *Ctx) {
 		}(i)
 	}
 	wg.Wait()
-	for _, o := range outs {
+	reproduced := 0
+	for i, o := range outs {
+		// an outcome that would be reported is first reproduced ALONE (the parallel batch itself loads the machine;
+		// a thorough sweep at load average 60 produced a "scripted failure never happened" setup alarm), twice at most
+		for attempt := 0; attempt < 2; attempt++ {
+			sc := c.Scratch()
+			c11Judge(sc, o, slack)
+			if !sc.Failed() || reproduced >= 8 {
+				break // (a systematic failure is not reproduced case by case: the first eight are enough)
+			}
+			reproduced++
+			c.Stat("e2e:reproduced-alone")
+			func() {
+				defer func() {
+					if p := recover(); p != nil {
+						o = c11Outcome{sc: scs[i], failNote: fmt.Sprint("panic: ", p)}
+					}
+				}()
+				if scs[i].Transport == "secs1" {
+					o = c11RunS1Scenario(scs[i], slack)
+				} else {
+					o = c11RunScenario(scs[i], slack)
+				}
+			}()
+			outs[i] = o
+		}
 		c11Judge(c, o, slack)
 	}
 	for i, o := range outs {
